@@ -11,11 +11,11 @@ open Panrpc
 
 theorem cur_faithful : Faithful Skeleton.current :=
   ⟨by decide, by decide, by decide, by decide, by decide, by decide, by decide, by decide, by decide,
-   by decide, by decide, by decide, by decide⟩
+   by decide, by decide, by decide, by decide, by decide⟩
 
 theorem pinned_faithful : Faithful Skeleton.pinned :=
   ⟨by decide, by decide, by decide, by decide, by decide, by decide, by decide, by decide, by decide,
-   by decide, by decide, by decide, by decide⟩
+   by decide, by decide, by decide, by decide, by decide⟩
 
 theorem cur_call_recovers : Skeleton.current.reqCallViaUtilsCall = true ∧ Skeleton.current.ucRecovers = true :=
   ⟨by decide, by decide⟩
